@@ -30,7 +30,7 @@ typedef struct fiber_multi_channel {
 static inline fiber_multi_channel_t* fiber_multi_channel_create(
     uint32_t power_of_2_size) {
   assert(power_of_2_size && power_of_2_size < 32);
-  const size_t size = 1 << power_of_2_size;
+  const size_t size = (size_t)1 << power_of_2_size;
   const size_t required_size =
       sizeof(fiber_multi_channel_t) + size * sizeof(void*);
   fiber_multi_channel_t* const channel =
